@@ -3,7 +3,7 @@
 
 use crate::refopt::{self, norm2};
 use crate::Out;
-use linfa::traits::{Fit, Predict};
+use linfa::traits::{Fit, Predict, PredictInplace};
 use crate::layout::{expand, lay};
 use linfa::DatasetBase;
 use linfa_logistic::MultiLogisticRegression;
@@ -42,19 +42,30 @@ pub struct MultiCase {
     /// element type of the subject: f64 | f32
     #[serde(default = "crate::f64_name")]
     pub float: String,
+    /// builder history, see BinCase
+    #[serde(default)]
+    pub setter_order: Option<Vec<u8>>,
+    #[serde(default)]
+    pub decoys: bool,
+    #[serde(default = "crate::default_ctor")]
+    pub ctor: String,
 }
 
 const USIZE_NAMES: [[usize; 4]; 2] = [[0, 1, 2, 3], [9, 4, 6, 2]];
 const STR_NAMES: [[&str; 4]; 2] = [["ape", "cat", "dog", "eel"], ["zebra", "ant", "yak", "bee"]];
 
 pub fn run(case: &MultiCase, viols: &mut Vec<Violation>) -> Out {
-    if case.fit_layout == "standard" && case.query_layout == "standard" {
+    let builder_variant = case.setter_order.is_some() || case.decoys || case.ctor != "default";
+    if case.fit_layout == "standard" && case.query_layout == "standard" && !builder_variant {
         return run_inner(case, viols);
     }
-    // layout case: see binary::run
+    // variant case: see binary::run
     let mut base = case.clone();
     base.fit_layout = "standard".into();
     base.query_layout = "standard".into();
+    base.setter_order = None;
+    base.decoys = false;
+    base.ctor = "default".into();
     let mut bv = Vec::new();
     let bo = run_inner(&base, &mut bv);
     if !bv.is_empty() || bo.ood {
@@ -63,8 +74,19 @@ pub fn run(case: &MultiCase, viols: &mut Vec<Violation>) -> Out {
     }
     let mut lv = Vec::new();
     let o = run_inner(case, &mut lv);
-    for v in lv {
-        viols.push(crate::as_layout_dependence(v, &case.fit_layout, &case.query_layout));
+    if builder_variant {
+        let sig = if case.ctor != "default" { "multi_logistic.params.constructor_dependence" } else { "multi_logistic.params.builder_order_dependence" };
+        let cj = serde_json::to_value(crate::Case::Multi(case.clone())).unwrap();
+        if lv.is_empty() && o.fingerprint != bo.fingerprint {
+            viols.push(Violation::new(sig, format!("same logical parameter set, setters called in order {:?} (decoys first: {}, constructor {}): fitted parameters / probabilities are not bit-identical to those of the canonical builder order", case.setter_order, case.decoys, case.ctor), cj.clone()));
+        }
+        for v in lv {
+            viols.push(Violation::new(sig, format!("the canonical builder order passes every check; setters in order {:?} (decoys first: {}, constructor {}): [{}] {}", case.setter_order, case.decoys, case.ctor, v.sig, v.what), cj.clone()));
+        }
+    } else {
+        for v in lv {
+            viols.push(crate::as_layout_dependence(v, &case.fit_layout, &case.query_layout));
+        }
     }
     o
 }
@@ -99,7 +121,7 @@ fn clamp_active(x: &[Vec<f64>], theta: &[f64], k: usize, intercept: bool) -> boo
 
 macro_rules! typed_impl {
     ($name:ident, $F:ty, $is32:expr) => {
-fn $name<C: Ord + Clone + Default + std::fmt::Debug>(case: &MultiCase, names: Vec<C>, viols: &mut Vec<Violation>) -> Out {
+fn $name<C: Ord + Clone + Default + std::fmt::Debug + 'static>(case: &MultiCase, names: Vec<C>, viols: &mut Vec<Violation>) -> Out {
     let mut out = Out::default();
     let is32: bool = $is32;
     let alpha_s = (case.alpha as $F) as f64;
@@ -158,13 +180,39 @@ fn $name<C: Ord + Clone + Default + std::fmt::Debug>(case: &MultiCase, names: Ve
     let y: Array1<C> = Array1::from_iter(groups.iter().map(|&g| names[g as usize].clone()));
     let ds = DatasetBase::new(laid.view(), y);
     let _ = n;
-    let mut params = MultiLogisticRegression::<$F>::default()
-        .alpha(case.alpha as $F)
-        .with_intercept(case.intercept)
-        .max_iterations(case.max_iter)
-        .gradient_tolerance(case.gtol as $F);
-    if let Some(init) = &case.init {
-        params = params.initial_params(Array2::from_shape_fn((pz, k), |(i, j)| init[i][j] as $F));
+    let build = |order: &[u8], decoys: bool, ctor: &str| {
+        let mut p = if ctor == "new" { MultiLogisticRegression::<$F>::new() } else { MultiLogisticRegression::<$F>::default() };
+        for pass in 0..2 {
+            if pass == 0 && !decoys {
+                continue;
+            }
+            let decoy = pass == 0;
+            for &s in order {
+                p = match s {
+                    0 => p.alpha(if decoy { 7.5 } else { case.alpha as $F }),
+                    1 => p.with_intercept(if decoy { !case.intercept } else { case.intercept }),
+                    2 => p.max_iterations(if decoy { 3 } else { case.max_iter }),
+                    3 => p.gradient_tolerance(if decoy { 0.5 } else { case.gtol as $F }),
+                    _ => match &case.init {
+                        Some(init) => p.initial_params(if decoy { Array2::from_elem((pz, k), 1.0) } else { Array2::from_shape_fn((pz, k), |(i, j)| init[i][j] as $F) }),
+                        None => p,
+                    },
+                };
+            }
+        }
+        p
+    };
+    let canonical: Vec<u8> = vec![0, 1, 2, 3, 4];
+    let params = build(case.setter_order.as_deref().unwrap_or(&canonical), case.decoys, &case.ctor);
+    if case.setter_order.is_some() || case.decoys || case.ctor != "default" {
+        let reference = build(&canonical, false, "default");
+        if params != reference || format!("{:?}", params) != format!("{:?}", reference) {
+            viols.push(Violation::new(
+                "multi_logistic.params.differ_from_canonical_history",
+                format!("setters in order {:?} (decoys first: {}, constructor {}) give {:?}, the canonical history gives {:?}", case.setter_order, case.decoys, case.ctor, params, reference),
+                cj(),
+            ));
+        }
     }
     // does the global-shift clamp of log_sum_exp bite at the first trial point of the line search
     // (theta0 - gradient(theta0), the unit steepest-descent step L-BFGS starts with)?
@@ -357,6 +405,52 @@ fn $name<C: Ord + Clone + Default + std::fmt::Debug>(case: &MultiCase, names: Ve
     if probs.dim() != (queries.len(), k) {
         viols.push(Violation::new("multi_logistic.predict_probabilities.wrong_shape", format!("{:?}", probs.dim()), cj()));
         return out;
+    }
+    out.fingerprint = wm.iter().chain(bm.iter()).chain(probs.iter()).map(|v| v.to_bits()).collect();
+    // ---- predict_inplace into caller-owned buffers must overwrite EVERY entry ----
+    {
+        let nq = queries.len();
+        let wrong: Array1<C> = pred.mapv(|c| {
+            let i = classes.iter().position(|x| *x == c).unwrap_or(0);
+            classes[(i + 1) % k].clone()
+        });
+        let rev_rows: Vec<Vec<$F>> = qrows.iter().rev().cloned().collect();
+        let rev_laid = lay(&rev_rows, "standard", <$F>::NAN);
+        let q2 = rev_laid.view();
+        let q_owned = q.to_owned();
+        let m_a = model.clone();
+        let m_b = model.clone();
+        let r = guarded(|| {
+            let mut a = wrong.clone();
+            model.predict_inplace(&q, &mut a);
+            let mut d0: Array1<C> = Array1::default(nq);
+            model.predict_inplace(&q, &mut d0);
+            let plain2 = model.predict(&q2);
+            let mut reused = a.clone();
+            model.predict_inplace(&q2, &mut reused);
+            let mtm: linfa::composing::MultiTargetModel<Array2<$F>, C> = vec![m_a, m_b].into_iter().collect();
+            (a, d0, plain2, reused, mtm.predict(&q_owned))
+        });
+        match r {
+            Err(p) => viols.push(Violation::new("multi_logistic.predict_inplace.panic", format!("predict_inplace into a caller-owned buffer / MultiTargetModel panicked: {}", p), cj())),
+            Ok((a, d0, plain2, reused, both)) => {
+                out.tag("predict_inplace_buffer_checks");
+                for (what, got, want) in [("pre-filled with a wrong class", &a, &pred), ("pre-filled with C::default()", &d0, &pred), ("reused from the previous batch (rows reversed)", &reused, &plain2)] {
+                    if got != want {
+                        let i = (0..nq).find(|&i| got[i] != want[i]).unwrap();
+                        viols.push(Violation::new(
+                            "multi_logistic.predict_inplace.stale_buffer",
+                            format!("predict_inplace into a buffer {}: entry {} is {:?}, predict() gives {:?} (classes {:?})", what, i, got[i], want[i], classes),
+                            cj(),
+                        ));
+                        break;
+                    }
+                }
+                if both.dim() != (nq, 2) || (0..nq).any(|i| both[(i, 0)] != pred[i] || both[(i, 1)] != pred[i]) {
+                    viols.push(Violation::new("multi_logistic.multi_target_model.wrong_labels", format!("MultiTargetModel[model, model].predict = {:?}, the single model predicts {:?}", both, pred), cj()));
+                }
+            }
+        }
     }
     for (i, qi) in queries.iter().enumerate() {
         out.queries += 1;
